@@ -13,11 +13,11 @@ PROP = {
     "floors": {
         "quick": {"cases": 150000, "distinct_nontrivial": 83000, "ticks": {"Simpson.panel": 1000000},
                   "clauses": {"polynomial-degree<=5-exact": 40000, "error-at-most-4eps-on-regular-integrands": 8000,
-                              "swap-negates-bit-for-bit": 60000, "epsilon-sign-irrelevant": 60000, "equal-limits-zero-no-evaluation": 60000,
+                              "swap-negates-bit-for-bit": 60000, "epsilon-sign-irrelevant": 60000, "equal-limits-give-zero": 60000,
                               "evaluations-inside-closed-interval": 120000, "evaluation-count-at-most-2^(depth+2)+1": 120000}},
         "thorough": {"cases": 3000000, "distinct_nontrivial": 1500000, "ticks": {"Simpson.panel": 50000000},
                      "clauses": {"polynomial-degree<=5-exact": 2000000, "error-at-most-4eps-on-regular-integrands": 400000,
-                                 "swap-negates-bit-for-bit": 3000000, "epsilon-sign-irrelevant": 3000000, "equal-limits-zero-no-evaluation": 3000000}},
+                                 "swap-negates-bit-for-bit": 3000000, "epsilon-sign-irrelevant": 3000000, "equal-limits-give-zero": 3000000}},
     },
     "technique": "runtime monitoring: value oracle against a long double reference (midpoint-shifted polynomial, closed forms), integrand wrapper "
                  "recording every abscissa, std::cout capture for the non-convergence warning, tick counter on the panel routine; gcc ASan+UBSan build in parallel",
